@@ -52,8 +52,8 @@ ck = Check('C06', 'exploration')
 
 # ------------------------------------------------------------------ the bound (in execution events)
 A_CONST = 400        # per call
-B_OCTET = 40         # per octet of the datagram (measured worst case on the unchanged tree: < 7, see evidence)
-C_SPI = 8            # per SPI declared by a DELETE payload on the payload chain (measured: 4)
+B_OCTET = 32         # per octet of the datagram (measured on the unchanged tree: at most 4.6; A: at most 143)
+C_SPI = 16           # per SPI declared by a DELETE payload on the payload chain (measured: 4)
 CAP_FACTOR = 4       # the parse is aborted at CAP_FACTOR * bound events
 WATCHDOG_S = 1200    # last resort against a hang outside the monitored files (per work unit)
 
@@ -69,10 +69,15 @@ class Watchdog(BaseException):
 _cnt = [0, 0]        # events so far, cap
 
 
-def _tick(*_):
-    c = _cnt
-    c[0] += 1
-    if c[0] > c[1]:
+def _on_line(code, line, _c=_cnt):          # also PY_START (code, offset)
+    _c[0] += 1
+    if _c[0] > _c[1]:
+        raise Abort()
+
+
+def _on_jump(code, src, dst, _c=_cnt):
+    _c[0] += 1
+    if _c[0] > _c[1]:
         raise Abort()
 
 
@@ -90,11 +95,12 @@ def _monitored(filename):
 def install_meter():
     """count LINE, JUMP and PY_START events of every code object defined in message.py / crypto.py"""
     mon = sys.monitoring
-    tool = mon.PROFILER_ID
+    tool = 3              # a free tool id (0 debugger, 1 coverage, 2 profiler, 5 optimizer are reserved names)
     mon.use_tool_id(tool, 'c06')
     ev = mon.events.LINE | mon.events.JUMP | mon.events.PY_START
-    for e in (mon.events.LINE, mon.events.JUMP, mon.events.PY_START):
-        mon.register_callback(tool, e, _tick)
+    mon.register_callback(tool, mon.events.LINE, _on_line)
+    mon.register_callback(tool, mon.events.PY_START, _on_line)
+    mon.register_callback(tool, mon.events.JUMP, _on_jump)
     seen = set()
 
     def reg(code):
@@ -179,7 +185,7 @@ def judge(data, ho, ctx):
     b0 = A_CONST + B_OCTET * len(data)
     kind, val, n = _parse(data, ho, cobj, CAP_FACTOR * b0)
     bound = b0
-    if n > b0:
+    if n > b0 // 4:      # (lazily: the DELETE term is only needed for the few expensive parses)
         bound = b0 + C_SPI * delete_term(data, keys)
         if kind == 'abort' and bound > b0:
             kind, val, n = _parse(data, ho, cobj, CAP_FACTOR * bound)
@@ -358,7 +364,7 @@ def contexts(b):
         integ = KEYS[b.right][1].integ
         wrong = [n for n in names if n != b.right and KEYS[n][1].integ == integ][0]
         other = [n for n in names if KEYS[n][1].integ != integ][0]
-        return ['none', b.right, wrong, other]
+        return ['none', b.right, other] if ck.quick else ['none', b.right, wrong, other]
     return ['none', names[0], [n for n in names if KEYS[n][1].integ == 'sha1'][0]]
 
 
@@ -374,6 +380,7 @@ class Acc:
         self.outcomes = set()
         self.viol = {}
         self.samples = []
+        self.sampled = set()
         self.max_ratio = (0.0, None)
         self.fam = {}
 
@@ -391,7 +398,8 @@ class Acc:
                 ratio = n / bound
                 if ratio > self.max_ratio[0]:
                     self.max_ratio = (ratio, dict(events=n, octets=len(data), bound=bound, family=fam))
-                if len(self.samples) < 2 and not ho and key[0] != 'proto' and len(data) < 200 and ctx != 'none':
+                if fam not in self.sampled and not ho and len(data) < 160 and n > 60:
+                    self.sampled.add(fam)
                     self.samples.append(dict(family=fam, layer=layer, context=ctx, header_only=ho, data=data.hex(),
                                              outcome=repr(key), events=n, bound=bound))
                 for clause, eff, text in v:
@@ -465,12 +473,17 @@ def unit_b(arg):
     layer = 'plain' if b.protected else 'wire'
     allf = b.fields + extra_fields(b)
     seen = set()
-    for fam, x, flags in R.length_grid(b.L, allf[lo:hi], nexts=NEXTS):
-        data = realise(b, x)
-        if data in seen:
-            continue
-        seen.add(data)
-        acc.case(fam, layer, data, ctxs, dict(base=b.label, right=b.right, **flags))
+    for f in allf[lo:hi]:
+        # quick tier: the own next-payload octet of a generic payload is the type octet of the following payload,
+        # which the T variants of that payload's fields already vary; X is kept for proposal / transform headers
+        nested = f.label.split('.')[0] in ('proposal', 'transform', 'attribute')
+        which = ('T', 'X') if nested or not ck.quick else ('T',)
+        for fam, x, flags in R.length_grid(b.L, [f], nexts=R.NEXT, nexts_own=NEXTS_OWN, which=which):
+            data = realise(b, x)
+            if data in seen:
+                continue
+            seen.add(data)
+            acc.case(fam, layer, data, ctxs, dict(base=b.label, right=b.right, **flags))
     if b.protected and hi >= len(allf):
         # the Pad Length octet is a length field too
         npt = len(b.L) - 32
@@ -525,6 +538,28 @@ def unit_s(i):
     return acc.result()
 
 
+def unit_o(n):
+    """(s, continued) an SK payload whose content (n = 12..15 octets) is shorter than the ICV, with a *correct*
+    ICV: the last 16 octets of the datagram then overlap the SK generic header, so its length field must come out
+    of the MAC itself - found by a deterministic search over the Message ID."""
+    acc = Acc()
+    k = KEYS[C_KEY][1]
+    if k.icv != 16 or not 12 <= n <= 15:
+        raise HarnessError('unit_o expects a 16-octet ICV')
+    want = struct.pack('>H', 4 + n)
+    skhdr = struct.pack('>BBH', R.NOTIFY, 0, 4 + n)
+    for mid in range(1 << 24):
+        pre = R.header(C_SPI_I, C_SPI_R, R.SK, 37, 0x08, mid, 32 + n) + skhdr[:n - 12]
+        data = pre + k.mac(pre)
+        if data[30:32] == want:
+            break
+    else:
+        raise HarnessError('no Message ID gives a consistent datagram')
+    other = [x for x in KEYS if KEYS[x][1].integ != k.integ][0]
+    acc.case('s-skraw', 'icv-overlap', data, ['none', C_KEY, other], dict(right=C_KEY, content=n, message_id=mid))
+    return acc.result()
+
+
 def unit_f(arg):
     """(f) maximal-size datagrams made of many minimal units (linear-time clause)"""
     total, idx, layer = arg
@@ -556,30 +591,40 @@ def _alarm(*_):
     raise Watchdog()
 
 
-NEXTS = R.NEXT
+NEXTS_OWN = (0, 1, 33, 42, 46, 49, 255) if ck.quick else R.NEXT    # alphabet of a structure's own next octet
+SMALL_K = (4, 3) if ck.quick else (6, 5)       # small bodies: max length without keys / with keys and inside SK
 C_KEY = None
 C_IV = bytes(range(16))
 
 
 def units():
-    out = []
+    out, kinds, n_s = [], set(), 0
     for i, b in enumerate(BASES):
         out.append(('a', (i, 'wire')))
         if b.protected:
             out.append(('a', (i, 'plain')))
-            if not ck.quick or b.world in ('main', 'authfail'):
+            if not ck.quick or (b.world in ('main', 'authfail') and n_s < 3 and b.label.split('[')[0] not in kinds):
                 out.append(('s', i))
-        if ck.quick and b.world in ('sha1', 'sha512'):
-            continue        # same structures as the main world; the thorough tier takes them all
+                n_s += 1
+        if ck.quick:
+            # the quick tier takes one message per (exchange, protected?, multiset of payload kinds): a response
+            # made of the same payloads as its request in another order is left to the thorough tier
+            kind = (b.label.split('-')[0], b.protected, tuple(sorted(t for t, _, _ in b.payloads)))
+            kinds.add(b.label.split('[')[0])
+            if kind in kinds or b.world in ('sha1', 'sha512'):
+                continue
+            kinds.add(kind)
         nf = len(b.fields) + 2
         for lo in range(0, nf, 3):
             out.append(('b', (i, lo, lo + 3)))
-    kc, kp = (5, 4) if ck.quick else (6, 5)
+    kc, kp = SMALL_K
     for t in R.NEXT:
         for first in (None,) + R.ALPHA:
             out.append(('c', ('clear', t, first, kc, ['none'])))
             out.append(('c', ('clear', t, first, kp, [C_KEY])))
             out.append(('c', ('plain', t, first, kp, [C_KEY])))
+    for n in ((15,) if ck.quick else (12, 13, 14, 15)):
+        out.append(('o', n))
     for total in ((4096, 65000) if ck.quick else (1024, 4096, 16384, 65000)):
         for idx in range(len(list(R.scaling_chains(total)))):
             out.append(('f', (total, idx, 'clear')))
@@ -613,6 +658,9 @@ def main():
     C_KEY = [n for n in KEYS if n.startswith('main/')][0]
     us = units()
     random.Random(ck.seed).shuffle(us)        # the seed only permutes the order of the work units
+    if not ck.args.jobs:
+        # on an oversubscribed machine 16 workers are slower than 4 (measured); results do not depend on this
+        ck.jobs = max(4, min(ck.jobs, int((os.cpu_count() or 1) - os.getloadavg()[0])))
     results = ck.pmap(run_unit, us)
     total = nontriv_c = 0
     digests, outcomes, viol, fam, samples = set(), set(), {}, {}, []
@@ -630,13 +678,14 @@ def main():
         for s, (rank, msg, doc) in r['viol'].items():
             if s not in viol or rank < viol[s][0]:
                 viol[s] = (rank, msg, doc)
-        if len(samples) < 8:
-            samples += r['samples'][:1]
+        for smp in r['samples']:
+            if sum(1 for x in samples if x['family'] == smp['family']) < 2:
+                samples.append(smp)
         if r['max_ratio'][0] > best[0]:
             best = r['max_ratio']
     for s in sorted(viol):
         ck.violation(s, viol[s][1], viol[s][2])
-    kc, kp = (5, 4) if ck.quick else (6, 5)
+    kc, kp = SMALL_K
     ck.coverage.update(
         evaluations=total, distinct_nontrivial=len(digests) + nontriv_c,
         rule='a case is (datagram, key context, header_only); it is non-trivial when header_only is False, the '
@@ -649,10 +698,15 @@ def main():
         key_contexts=dict(none='no crypto', right='keys of the direction the message was sent in',
                           wrong='another key set of the same suite', other='a key set with another ICV length',
                           all=sorted(KEYS)),
-        alphabets=dict(next_payload=list(R.NEXT), small_body_octets=list(R.ALPHA), length_values='0..5, exact-1, '
+        alphabets=dict(next_payload=list(R.NEXT), next_payload_own_octet=list(NEXTS_OWN), small_body_octets=list(R.ALPHA), length_values='0..5, exact-1, '
                        'exact, exact+1, 0xFFFF (0xFF for one-octet fields), field only and with the structure '
                        'really resized', mutations_per_octet=5,
                        small_body_max_len=dict(clear_no_crypto=kc, clear_with_keys=kp, inside_sk_right_keys=kp)),
+        tier_reductions=('none: every authentic message, every context, both next-octet variants' if not ck.quick else
+                         'quick: grid (b) on one message per (exchange, protected?, multiset of payload kinds) and not '
+                         'on the sha1/sha512 suites; own-next-octet variants only for proposal/transform headers '
+                         '(alphabet next_payload_own_octet); contexts none/right/other-suite; family s on 3 messages; '
+                         'ICV-overlap only for 15 octets; scaling sizes 4096 and 65000'),
         bound=dict(A=A_CONST, B_per_octet=B_OCTET, C_per_declared_spi=C_SPI, cap_factor=CAP_FACTOR,
                    unit='LINE + JUMP + PY_START events of sys.monitoring in message.py and crypto.py',
                    monitored_code_objects=ncode, closest_case=best[1], closest_ratio=round(best[0], 3)),
